@@ -204,7 +204,7 @@ def _lists(env_or_loc):
 
 def rows_inv(env, base, st, row):
     """rows read so far: three lists of equal length start - base, entry j0 is `row(line base + j0)`"""
-    lines = env.loc["lines"]
+    lines = env.unique(H.SymSeq, "lines")
     f, r, im = _lists(env)
     n = lines.start - base
     j0 = st["j0"]
@@ -263,7 +263,7 @@ def target_line_parsers():
 
         @specs.add("parse_mpt", "w1")
         def _(env):
-            lines = env.loc["lines"]
+            lines = env.unique(H.SymSeq, "lines")
             return [("the header line has not been passed", z3.And(lines.start >= 0, lines.start <= st["h"], lines.end == st["N"]))]
 
         @specs.add("parse_mpt", "w2")
@@ -319,7 +319,7 @@ def target_line_parsers():
 
         @specs.add("parse_p00", "w1")
         def _(env):
-            lines = env.loc["lines"]
+            lines = env.unique(H.SymSeq, "lines")
             return [("the header line has not been passed", z3.And(lines.start >= 0, lines.start <= st["h"], lines.end == st["N"])),
                     ("the number of points is not read before the header", H._z(env.loc["num_points"]) == 0)]
 
@@ -351,7 +351,7 @@ def target_line_parsers():
 
         @specs.add("parse_dfr", 1)
         def _(env):
-            lines = env.loc["lines"]
+            lines = env.unique(H.SymSeq, "lines")
             f, r, im = _lists(env)
             j0, L = st["j0"], st["L"]
             b = 3 + 9 * j0
